@@ -16,6 +16,20 @@ CLAIMED = {
         "is an input list in the model.",
    technique="Coq proof by induction over operation lists + vm_compute correspondence against the real objects",
    design_ref="DESIGN.md §6 C20"),
+ "C13": dict(
+   category="proof",
+   text="Theorems in coq/Props/C13.v (closed) about a Gallina model of resolve_includes over an arbitrary file system and path "
+        "resolution: on success the output is the unique textual unfolding of the include tree (inductive spec without seen-set "
+        "or fuel), the line map attributes every output line to its true file and 0-based index, a reachable cycle is never "
+        "accepted and is reported as a cycle, a file seen along two branches is not a cycle (the seen set is branch local), "
+        "missing files and malformed directives are reported with a real witness, and resolution terminates (fuel = number of "
+        "files + 1 is never exhausted).  The model is tied to the code on every run by resolving generated include graphs on disk "
+        "with the real resolve_includes and inside Coq; the entry-point clause (compile / play / bundle use the include-resolving "
+        "path) is differential only: click CliRunner on the three commands versus compile_file.",
+   note="Trusted: Coq kernel + vm_compute; hand model tied by the correspondence run; rel_posix (lexical path normalisation, no "
+        "symlinks) as a model of Path.resolve for generated trees; harness.  CLI glue is tested, not proved.",
+   technique="Coq proof by induction on fuel/include tree + vm_compute correspondence on generated include graphs",
+   design_ref="DESIGN.md §6 C13"),
 }
 
 ALL = [f"C{i:02d}" for i in range(1, 21)]
